@@ -90,7 +90,9 @@ def shift_amount(r):
 
 def bijection(r, labels):
     classes = sorted({str(s).lower() for s in labels})
-    names = ["Z%d" % i for i in range(len(classes))]
+    # distinct names, some differing only in surrounding whitespace
+    names = [("Z%d" % (i // 3)) + ["", " ", "  x"][i % 3] if i % 3 != 2
+             else " Z%d" % (i // 3) for i in range(len(classes))]
     r.shuffle(names)
     m = dict(zip(classes, names))
     return [m[str(s).lower()] for s in labels]
